@@ -31,6 +31,7 @@
 #include "erasurecode_backend.h"
 #include "erasurecode_helpers.h"
 #include "erasurecode_helpers_ext.h"
+#include "erasurecode_verif.h"
 
 #define LIBERASURECODE_RS_VAND_LIB_MAJOR 1
 #define LIBERASURECODE_RS_VAND_LIB_MINOR 0
@@ -236,6 +237,7 @@ static void * liberasurecode_rs_vand_init(struct ec_backend_args *args,
     }
 
     desc->init_liberasurecode_rs_vand(desc->k, desc->m);
+    VERIF_YIELD(40);
 
     desc->matrix = desc->make_systematic_matrix(desc->k, desc->m);
 
